@@ -36,6 +36,9 @@ type Case struct {
 	// file-level byte shapes the statement's "every other byte is unchanged" covers: CRLF line ends, no final newline
 	Crlf    bool `json:"crlf"`
 	NoFinal bool `json:"noFinal"`
+	// PriorOld: before the request, the same process has carried out another request (PriorOld -> PriorOld+"Prior" on the
+	// same class) on a separate copy of the project; nothing of it may reach this request
+	PriorOld string `json:"priorOld"`
 }
 
 // a site the model attributes to the renamed method: its declaration(s) and the calls recorded against it
@@ -216,6 +219,22 @@ func one(raw json.RawMessage) interface{} {
 		}
 	}
 	rec.NSites = len(rec.Sites)
+	if c.PriorOld != "" && c.PriorOld != c.Req.Old {
+		rootA := filepath.Join(scratch, "earlier")
+		for _, f := range c.Files {
+			text, facts := javagen.Render(f, c.Layout)
+			pa := filepath.Join(rootA, filepath.FromSlash(facts.RelPath))
+			os.MkdirAll(filepath.Dir(pa), 0o755)
+			os.WriteFile(pa, []byte(text), 0o644)
+		}
+		lib.Guard(func() {
+			ia := javaapp.NewJavaIdentifierApp()
+			identA := ia.AnalysisPath(rootA)
+			fa := javaapp.NewJavaFullApp()
+			depsA := fa.AnalysisPath(rootA, identA)
+			rename.RenameMethodApp(depsA).Refactoring(fmt.Sprintf("%s.%s.%s -> %s.%s.%sPrior", c.Req.Pkg, c.Req.Cls, c.PriorOld, c.Req.Pkg, c.Req.Cls, c.PriorOld))
+		})
+	}
 	conf := fmt.Sprintf("%s.%s.%s -> %s.%s.%s", c.Req.Pkg, c.Req.Cls, c.Req.Old, c.Req.Pkg, c.Req.Cls, c.Req.New)
 	p1, msg1 := lib.Guard(func() { rename.RenameMethodApp(deps).Refactoring(conf) })
 	for i := range rec.Texts {
@@ -412,6 +431,14 @@ func gen(seed int64, n int, tier string) []interface{} {
 		}
 		c := Case{Case: fmt.Sprintf("rand-%d-%d", seed, k), Files: p.Files, Layout: p.Layout,
 			Req: Req{Pkg: tf.Pkg, Cls: tf.Unit.Name, Old: old, New: newName}, Crlf: r.Intn(6) == 0, NoFinal: r.Intn(6) == 0}
+		if r.Intn(4) == 0 { // an earlier request of the same process, on another method of the class
+			for _, m := range tf.Unit.Members {
+				if m.Kind == "method" && m.Name != old {
+					c.PriorOld = m.Name
+					break
+				}
+			}
+		}
 		out = append(out, c)
 		k++
 	}
